@@ -110,7 +110,8 @@ Compute(r) ==
 
 ---------------------------------------------------------------------------
 InitImpl(D, O) ==
-  /\ ds = D /\ opt = O /\ X = Context(D, O)
+  /\ ds = D /\ opt = O
+  /\ X = LET c == Context(D, O) IN [c EXCEPT !.adj = TLCEval(c.adj), !.pos = TLCEval(c.pos), !.cells = TLCEval(c.cells)]
   /\ heap = <<>> /\ nid = 1
   /\ fcache = [j \in 1..Len(AllInputs(D)) |-> [f \in Fields |-> 0]]
   /\ rcache = <<>>
@@ -123,11 +124,11 @@ Request(r) ==
      THEN /\ last' = [req |-> r, ids |-> rcache[r], hit |-> TRUE, steps |-> <<>>, inplace |-> FALSE]
           /\ UNCHANGED <<heap, fcache, rcache, nid>>
           /\ returned' = returned \cup {[id |-> rcache[r][k], snap |-> heap[rcache[r][k]]] : k \in DOMAIN rcache[r]}
-     ELSE LET c == Compute(r) IN
-          /\ heap' = c.heap /\ fcache' = c.fcache /\ nid' = c.nid
-          /\ rcache' = rcache @@ (r :> c.ids)
-          /\ last' = [req |-> r, ids |-> c.ids, hit |-> FALSE, steps |-> c.steps, inplace |-> c.inplace]
-          /\ returned' = returned \cup {[id |-> c.ids[k], snap |-> c.heap[c.ids[k]]] : k \in DOMAIN c.ids}
+     ELSE LET c == TLCEval(Compute(r)) IN       \* (TLCEval: identity; makes TLC build the new functions now rather than lazily)
+          /\ heap' = TLCEval(c.heap) /\ fcache' = TLCEval(c.fcache) /\ nid' = c.nid
+          /\ rcache' = TLCEval(rcache @@ (r :> c.ids))
+          /\ last' = TLCEval([req |-> r, ids |-> c.ids, hit |-> FALSE, steps |-> c.steps, inplace |-> c.inplace])
+          /\ returned' = TLCEval(returned \cup {[id |-> c.ids[k], snap |-> c.heap[c.ids[k]]] : k \in DOMAIN c.ids})
 
 ---------------------------------------------------------------------------
 (* Refinement of Dataset.tla *)
